@@ -30,6 +30,12 @@ def _events(events, kind: str) -> List[Dict[str, Any]]:
     return [e for t, e in events if t == kind]
 
 
+def can_use(vehicle, charger) -> bool:
+    """can this vehicle's powertrain take energy from this plug at all? Decided from the data (the plug's energy type is one the
+    vehicle stores), not by asking HIVE's valid_charger - whose answer is part of what the checks judge"""
+    return any(et == charger.energy_type for et in vehicle.energy.keys())
+
+
 def _route_time_s(route) -> float:
     return sum(3600.0 * l.distance_km / l.speed_kmph for l in route)
 
@@ -243,7 +249,7 @@ class C04Energy(Monitor):
                 # happens in the step. That is the controller's error (same exclusion as C06 (iii)), not an energy defect.
                 st_ = after.stations.get(v.vehicle_state.station_id)
                 cs = st_.state.get(v.vehicle_state.charger_id) if st_ is not None else None
-                if cs is None or not mech.valid_charger(cs.charger):
+                if cs is None or not can_use(v, cs.charger):
                     a_queue = False
                     h.stats["c04_queue_excluded_unusable_plug"] += 1
             if (a_idle or a_queue) and lvl0 > 0 and dt > 0 and not lvl < lvl0:
@@ -281,6 +287,40 @@ class C05Ledger(Monitor):
         self.paid = collections.Counter()
         self.recv = collections.Counter()
         self.tariffs = set()
+        # the run's summary statistics (what summary_stats.json is written from), asked for as a co-simulation client may: mid-run, repeatedly
+        from nrel.hive.reporting.handler.stats_handler import StatsHandler
+
+        self.stats_h = StatsHandler()
+        h.env.reporter.add_handler(self.stats_h)
+
+    def summary(self, h: History, when: str) -> Iterable[Violation]:
+        try:
+            with quiet():
+                out = h.env.reporter.get_summary_stats(h.rp)
+        except Exception as exc:
+            h._crashed(exc)
+            return
+        if not out:
+            return
+        h.stats["summaries_compiled"] += 1
+        sim = h.sim
+        want = {
+            "total_kwh_dispensed": sum(x for s_ in sim.stations.values() for et, x in s_.energy_dispensed.items() if et.name == "ELECTRIC"),
+            "total_gge_dispensed": sum(x for s_ in sim.stations.values() for et, x in s_.energy_dispensed.items() if et.name == "GASOLINE"),
+            "station_revenue_dollars": sum(s_.balance for s_ in sim.stations.values()),
+            "fleet_revenue_dollars": sum(v.balance for v in sim.vehicles.values()),
+        }
+        for k, w in want.items():
+            if k in out and abs(float(out[k]) - w) > TOL:
+                yield Violation("C05", f"summary {k} != total over the stations / vehicles", {"summary": float(out[k]), "state": w, "when": when, "compiled_so_far": h.stats["summaries_compiled"]})
+
+    def finish(self, h):
+        yield from self.summary(h, "at the end")
+        yield from self.summary(h, "at the end, asked again")
+        try:  # StatsHandler.close() prints a table on the console when the world is closed
+            h.env.reporter.handlers.remove(self.stats_h)
+        except (ValueError, AttributeError):
+            pass
 
     def after_step(self, h: History, before, after, events):
         step_paid = collections.Counter()
@@ -375,6 +415,8 @@ class C05Ledger(Monitor):
                 state_d = sum(x - (s0.energy_dispensed.get(et, 0.0) if s0 is not None else 0.0) for et, x in s1.energy_dispensed.items()) if s1 is not None else 0.0
                 if abs(rep[sid] - state_d) > 1e-9:
                     yield Violation("C05", "station load report != energy the station dispensed in the step", {"station": sid, "reported": rep[sid], "dispensed": state_d, "charge_events": [[e["vehicle_id"], e["station_id"], float(e["energy"])] for _, e in charge]})
+        if h.step_no % 6 == 3:
+            yield from self.summary(h, "mid-run")
         # flag: session cut short by an instruction
         for e in _events(events, "INSTRUCTION"):
             b = before.vehicles.get(e["vehicle_id"])
@@ -455,7 +497,7 @@ class C06Movement(Monitor):
             mech = h.env.mechatronics[v.mechatronics_id]
             if cs is None:
                 return "plug_not_installed"
-            if not mech.valid_charger(cs.charger):
+            if not can_use(v, cs.charger):
                 return "plug_wrong_energy_type"
         return ""
 
@@ -869,7 +911,7 @@ class C18Queue(Monitor):
                 st_ = after.stations.get(ws.station_id)
                 cs = st_.state.get(ws.charger_id) if st_ is not None else None
                 mech = h.env.mechatronics[w.mechatronics_id]
-                if cs is None or not mech.valid_charger(cs.charger):
+                if cs is None or not can_use(w, cs.charger):
                     continue  # can never be granted this plug; skipping it is not queue-jumping
                 if mech.is_full(w):
                     # HIVE refuses to start a session for a vehicle it considers full (within 0.1 kWh of capacity for a
